@@ -281,6 +281,15 @@ func EnumPDFPairs(spec pdfw.DocSpec) [][]Fault {
 		}
 	}
 	for _, c := range containers {
+		// ... and an object that is not in the stream at all, said to be in it
+		self := Fault{Layer: "pdfobj", Kind: "field-add", A: int64(c), B: int64(c), S: "Extends"}
+		n := 0
+		for _, e := range ents {
+			if !(e.typ == 2 && e.a == c) && e.typ != 0 && e.num != c && n < 8 {
+				n++
+				out = append(out, []Fault{self, {Layer: "pdfobj", Kind: "xref-entry", A: int64(e.num), B: int64(e.rev)<<8 | 10, S: strconv.Itoa(c)}})
+			}
+		}
 		for _, tg := range containers {
 			mk := Fault{Layer: "pdfobj", Kind: "field-add", A: int64(c), B: int64(tg), S: "Extends"}
 			n := 0
@@ -628,7 +637,13 @@ func ApplyPDFFields(spec pdfw.DocSpec, fs []Fault) []byte {
 			entry = func(rev, num, typ, a, b int) (int, int, int) {
 				for _, f := range fs {
 					if f.Layer == "pdfobj" && f.Kind == "xref-entry" && int(f.A) == num && int(f.B>>8) == rev {
-						typ, a, b = entryVariant(int(f.B&0xff), num, typ, a, b)
+						if v := int(f.B & 0xff); v == 10 {
+							// said to be the first member of the object stream named in S
+							c, _ := strconv.Atoi(f.S)
+							typ, a, b = 2, c, 0
+						} else {
+							typ, a, b = entryVariant(v, num, typ, a, b)
+						}
 					}
 				}
 				return typ, a, b
